@@ -461,11 +461,11 @@ def execute(plan):
         shutil.rmtree(workdir, ignore_errors=True)
 
 
-def first_diff(a, b):
+def first_diff(a, b, la="only with stale rows present", lb="only in the twin"):
     for x in a:
         if x not in b:
-            return "only with stale rows present: %r" % (x,)
+            return "%s: %r" % (la, x)
     for x in b:
         if x not in a:
-            return "only in the twin: %r" % (x,)
+            return "%s: %r" % (lb, x)
     return "?"
